@@ -37,7 +37,9 @@ def extra_builds(tier):
 
 def bounds(tier):
     return {"tree_depth": 4 if tier == "thorough" else 3, "graph_bytes": "4B+1", "live_contexts": 2,
-            "graph_resets": 2 if tier == "thorough" else 1}
+            "graph_resets": 2 if tier == "thorough" else 1,
+            "big_chunk_tree_depth": 3 if tier == "thorough" else 2, "big_chunk_blocks": "5..20 whole blocks per call with tails -1/0/+1/mid",
+            "counter_preset_reuse_histories": "BLAKE2 byte counters preset next to / beyond their word boundaries, then every kind of reset"}
 
 
 def validate_models(tier):
